@@ -884,22 +884,29 @@ func artifactManifest(layer, salt string) ([]byte, []byte) {
 	return b, lb
 }
 
-func newSession(rt *rapid.T, rec *stats.Recorder) (*session, func()) {
-	s := &session{rt: rt, rec: rec, ctx: context.Background(), blobs: map[digest.Digest][]byte{}}
+// close removes the session's sandbox; it is deferred before anything is drawn or created, so
+// that a case rapid abandons half-way (exhausted bit stream while shrinking) leaves nothing behind.
+func (s *session) close() {
+	if s.dir != "" {
+		os.RemoveAll(s.dir)
+	}
+}
+
+func (s *session) open(rt *rapid.T, rec *stats.Recorder) {
+	s.rt, s.rec, s.ctx, s.blobs = rt, rec, context.Background(), map[digest.Digest][]byte{}
 	s.kind = rp.Pick(rt, "store", "disk", "memory")
-	cleanup := func() {}
+	salt := strings.Repeat("s", rapid.IntRange(0, 40).Draw(rt, "salt"))
 	if s.kind == "disk" {
 		dir, err := os.MkdirTemp("", "c19-")
 		if err != nil {
 			rt.Fatalf("harness: %v", err)
 		}
-		cleanup = func() { os.RemoveAll(dir) }
+		s.dir = dir
 		st, err := oci.New(dir)
 		if err != nil {
-			cleanup()
 			rt.Fatalf("harness: oci.New: %v", err)
 		}
-		s.dir, s.inner = dir, st
+		s.inner = st
 	} else {
 		s.inner = memory.New()
 	}
@@ -907,7 +914,6 @@ func newSession(rt *rapid.T, rec *stats.Recorder) (*session, func()) {
 	s.repo = registry.NewRepository(s.ls)
 
 	// subject pool: A as an image manifest, the same bytes as a docker manifest, and B
-	salt := strings.Repeat("s", rapid.IntRange(0, 40).Draw(rt, "salt"))
 	a, la := artifactManifest("a", salt)
 	b, lb := artifactManifest("b", salt)
 	mk := func(name, mt string, c []byte) *subject {
@@ -917,7 +923,6 @@ func newSession(rt *rapid.T, rec *stats.Recorder) (*session, func()) {
 	s.rawPush(ocispec.MediaTypeEmptyJSON, []byte("{}"))
 	s.rawPush("application/vnd.example.layer", la)
 	s.rawPush("application/vnd.example.layer", lb)
-	return s, cleanup
 }
 
 func TestC19_Sessions(t *testing.T) {
@@ -926,8 +931,9 @@ func TestC19_Sessions(t *testing.T) {
 	// may go on. The default of 30 would spend most steps after the budget is used.
 	_ = flag.Set("rapid.steps", "18")
 	rp.Check(t, 1500, 30000, func(rt *rapid.T) {
-		s, cleanup := newSession(rt, rec)
-		defer cleanup()
+		s := &session{}
+		defer s.close()
+		s.open(rt, rec)
 		s.op("store %s", s.kind)
 		s.pushArtifact(s.pool[rapid.IntRange(0, len(s.pool)-1).Draw(rt, "firstArtifact")])
 
